@@ -1,0 +1,74 @@
+//go:build verif
+
+// Contracts for the node manager (governance approvals C32, pool C34, witnesses C18), read by /verif/gocv.
+package node_manager
+
+// approval record of one (method, input): keyed by SHA-256 of method ++ input
+//@ spec signKey(h common.Uint256) KeyT = K2(utils.NodeManagerContractAddress, "consensusSigns", h)
+//@ spec viewKey() KeyT = K1(utils.NodeManagerContractAddress, "governanceView")
+//@ spec poolKey(view uint32) KeyT = K2(utils.NodeManagerContractAddress, "peerPool", u32le(view))
+
+//@ func getConsensusSigns
+//@   property C32
+//@   mode abstract
+//@   requires native != nil
+//@   modifies nothing
+//@   ensures err == nil ==> r0 != nil
+
+//@ func putConsensusSigns
+//@   property C32
+//@   mode abstract
+//@   requires native != nil
+//@   modifies Store
+//@   ensures Store == upd(old(Store), signKey(key), Store[signKey(key)]) && Store[signKey(key)] != None
+
+//@ func deleteConsensusSigns
+//@   property C32
+//@   mode abstract
+//@   requires native != nil
+//@   modifies Store
+//@   ensures Store == upd(old(Store), signKey(key), None)
+
+//@ func GetGovernanceView
+//@   property C32
+//@   mode abstract
+//@   requires native != nil
+//@   modifies nothing
+//@   ensures err == nil ==> r0 != nil
+
+//@ func GetView
+//@   property C32
+//@   mode abstract
+//@   requires native != nil
+//@   modifies nothing
+
+//@ func GetPeerPoolMap
+//@   property C32
+//@   mode abstract
+//@   requires native != nil
+//@   modifies nothing
+//@   ensures err == nil ==> r0 != nil
+
+//@ func CheckConsensusSigns
+//@   property C32
+//@   mode abstract
+//@   requires native != nil
+//@   modifies Store
+//@   ghost var sk KeyT
+//@   ghost var skh common.Uint256
+//@   ghost var gnum int = 0
+//@   ghost var gsum int = 0
+//@   set after "key := sha256.Sum256(message)" : sk := signKey(key)
+//@   set after "key := sha256.Sum256(message)" : skh := key
+//@   ensures[c32-key] sk == signKey(skh)
+//@   set before "if num >= (2*sum+2)/3" : gnum := num
+//@   set before "if num >= (2*sum+2)/3" : gsum := sum
+//@   -- only the approval record of this (method, input) can change
+//@   ensures[c32-frame] Store == upd(old(Store), sk, Store[sk])
+//@   -- the action fires exactly when at least two thirds (rounded up) of the consensus validators are among the approvers
+//@   ensures[c32-threshold] err == nil ==> (r0 <==> gnum >= (2*gsum+2)/3)   -- (2N+2)/3 is ceil(2N/3): lemmas gov_threshold_is_ceil, gov_bv_div_is_floor
+//@   -- firing consumes the record, otherwise the enlarged approver set is stored
+//@   ensures[c32-consumed] err == nil && r0 ==> Store[sk] == None
+//@   ensures[c32-kept] err == nil && !r0 ==> Store[sk] != None
+//@   ensures[c32-error] err != nil ==> Store == old(Store)
+//@   loop 1 invariant 0 <= num && num <= sum && sum <= it1
